@@ -2,6 +2,7 @@
 
 use futures::future::BoxFuture;
 use remoc::{codec, robj::rw_lock::{Owner, RwLock}};
+use serde::{Deserialize, Serialize};
 use std::{sync::Arc, time::Duration};
 
 use super::c04::{base_pair, carrier_cfg};
@@ -56,7 +57,20 @@ pub struct LockScenario {
     pub cut_b_while_holding: Option<Op>,
 }
 
-async fn run_handle(env: Env, id: u8, lock: RwLock<u32>, script: Vec<Op>, obs: Shared<Obs>) {
+/// Value kept in the lock. The value `POISON` serializes but cannot be decoded: a commit of it by a
+/// remote handle cannot reach the owner although the connection is fine.
+#[derive(Clone, Copy, Debug, PartialEq, Eq, Serialize)]
+pub struct LV(pub u32);
+pub const POISON: u32 = 666;
+
+impl<'de> Deserialize<'de> for LV {
+    fn deserialize<D: serde::Deserializer<'de>>(d: D) -> Result<Self, D::Error> {
+        let v = u32::deserialize(d)?;
+        if v == POISON { Err(serde::de::Error::custom("value cannot be decoded")) } else { Ok(LV(v)) }
+    }
+}
+
+async fn run_handle(env: Env, id: u8, lock: RwLock<LV>, script: Vec<Op>, obs: Shared<Obs>) {
     for op in script {
         let start = env.step();
         let idx = {
@@ -80,12 +94,12 @@ async fn run_handle(env: Env, id: u8, lock: RwLock<u32>, script: Vec<Op>, obs: S
                     {
                         let mut o = obs.lock().unwrap();
                         o.hist[idx].acquired = Some(env.step());
-                        o.hist[idx].value = Some(*g);
+                        o.hist[idx].value = Some(g.0);
                     }
                     for _ in 0..h {
                         yield_once().await;
                     }
-                    let v2 = *g;
+                    let v2 = g.0;
                     drop(g);
                     let mut o = obs.lock().unwrap();
                     o.hist[idx].released = Some(env.step());
@@ -98,9 +112,9 @@ async fn run_handle(env: Env, id: u8, lock: RwLock<u32>, script: Vec<Op>, obs: S
                     {
                         let mut o = obs.lock().unwrap();
                         o.hist[idx].acquired = Some(env.step());
-                        o.hist[idx].value = Some(*g);
+                        o.hist[idx].value = Some(g.0);
                     }
-                    *g = v;
+                    *g = LV(v);
                     yield_once().await;
                     // the guard ceases to exist when commit() consumes it
                     obs.lock().unwrap().hist[idx].released = Some(env.step());
@@ -118,9 +132,9 @@ async fn run_handle(env: Env, id: u8, lock: RwLock<u32>, script: Vec<Op>, obs: S
                     {
                         let mut o = obs.lock().unwrap();
                         o.hist[idx].acquired = Some(env.step());
-                        o.hist[idx].value = Some(*g);
+                        o.hist[idx].value = Some(g.0);
                     }
-                    *g = 9999;
+                    *g = LV(9999);
                     yield_once().await;
                     drop(g);
                     let mut o = obs.lock().unwrap();
@@ -145,7 +159,7 @@ impl Scenario for LockScenario {
         let root = async move {
             env.explore(false);
             let link = LinkOpts { capacity: 2, deliver_cap: 2, eof_on_drop: true };
-            let ab = base_pair::<RwLock<u32>, RwLock<u32>, (), ()>(&env, carrier_cfg(), carrier_cfg(), link).await;
+            let ab = base_pair::<RwLock<LV>, RwLock<LV>, (), ()>(&env, carrier_cfg(), carrier_cfg(), link).await;
             let ((mut a_tx, _a_rx, k1, k2), (_b_tx, mut b_rx, k3, k4)) = match ab {
                 Ok(x) => x,
                 Err(e) => {
@@ -153,7 +167,7 @@ impl Scenario for LockScenario {
                     return;
                 }
             };
-            let owner = Owner::<u32, C>::new(0);
+            let owner = Owner::<LV, C>::new(LV(0));
             let local = owner.rw_lock();
             // two independent instances on B (each has its own cache)
             let mut remote = Vec::new();
@@ -188,7 +202,7 @@ impl Scenario for LockScenario {
                     match hold {
                         Op::Read(_) => {
                             if let Ok(g) = lock.read().await {
-                                o3.lock().unwrap().hist.push(Rec { handle: 9, op: hold, start, acquired: Some(env3.step()), released: None, value: Some(*g), result: "held-by-lost-endpoint".into() });
+                                o3.lock().unwrap().hist.push(Rec { handle: 9, op: hold, start, acquired: Some(env3.step()), released: None, value: Some(g.0), result: "held-by-lost-endpoint".into() });
                                 env3.dir(0, 0).cut();
                                 env3.dir(0, 1).cut();
                                 futures::future::pending::<()>().await;
@@ -196,7 +210,7 @@ impl Scenario for LockScenario {
                         }
                         _ => {
                             if let Ok(g) = lock.write().await {
-                                o3.lock().unwrap().hist.push(Rec { handle: 9, op: hold, start, acquired: Some(env3.step()), released: None, value: Some(*g), result: "held-by-lost-endpoint".into() });
+                                o3.lock().unwrap().hist.push(Rec { handle: 9, op: hold, start, acquired: Some(env3.step()), released: None, value: Some(g.0), result: "held-by-lost-endpoint".into() });
                                 env3.dir(0, 0).cut();
                                 env3.dir(0, 1).cut();
                                 futures::future::pending::<()>().await;
@@ -216,7 +230,7 @@ impl Scenario for LockScenario {
             // final value as seen by the owner's endpoint
             if o2.lock().unwrap().pending.is_empty() {
                 if let Ok(Ok(g)) = tokio::time::timeout(Duration::from_secs(20), local.read()).await {
-                    o2.lock().unwrap().final_value = Some(*g);
+                    o2.lock().unwrap().final_value = Some(g.0);
                 }
             }
             drop((remote, local, owner, a_tx, b_rx, k1, k2, k3, k4));
@@ -307,6 +321,10 @@ impl Scenario for LockScenario {
                         v.fail("C17", "commit-lost", format!("final value {:?}, last committed {cur}; history {:?}", o.final_value, o.hist));
                     }
                     for r in o.hist.iter().filter(|r| r.result.starts_with("err") || r.result.starts_with("commit-err")) {
+                        // committing a value the owner cannot decode must fail (and then counts as not committed)
+                        if r.op == Op::Write(POISON) && r.result.starts_with("commit-err") {
+                            continue;
+                        }
                         v.fail("C17", "lock-operation-failed", format!("{r:?}"));
                     }
                 }
@@ -348,6 +366,11 @@ pub fn grid(tier: Tier) -> Vec<Arc<dyn Scenario>> {
             }
         }
     }
+    // a remote handle commits a value the owner cannot decode: the commit must fail and change nothing
+    out.push(mk(vec![vec![], vec![], vec![Op::Write(POISON), Op::Read(0)], vec![Op::Settle, Op::Read(0)]], None));
+    out.push(mk(vec![vec![Op::Read(0), Op::Settle, Op::Read(0)], vec![], vec![Op::Write(5), Op::Write(POISON)], vec![Op::Settle, Op::Read(0)]], None));
+    out.push(mk(vec![vec![Op::Write(1)], vec![], vec![Op::Settle, Op::Write(POISON)], vec![Op::Settle, Op::Settle, Op::Write(2), Op::Read(0)]], None));
+    out.push(mk(vec![vec![Op::Settle, Op::Read(0)], vec![], vec![Op::Write(POISON)], vec![Op::Write(POISON)]], None));
     // three and four handles
     let n3 = if tier == Tier::Quick { 1 } else { 3 };
     for k in 0..n3 {
